@@ -171,7 +171,7 @@ def train_ddqn_per(
             termination=terminated,
         )
 
-        if step > batch_size:
+        if step > batch_size and step >= learning_starts:
             if step % update_frequency == 0:
                 transition_batch, is_ratio = replay_buffer.sample_batch(batch_size, rng, beta[step])
 
